@@ -165,7 +165,7 @@ class Violation:
 
 
 def kf_match(entry, klass, signature):
-    if entry.get('status') != 'open' or entry.get('class') != klass:
+    if entry.get('status') != 'open' or entry.get('class') not in (klass, '*'):
         return False
     for k, v in entry.get('signature', {}).items():
         if signature.get(k) != v:
@@ -231,6 +231,8 @@ class World:
     def violation(self, klass, signature, message):
         """Record a violation.  A violation matching an open known finding is counted and the run
         goes on; any other ends the run (StopRun)."""
+        if getattr(self, 'sig_env', None):
+            signature = dict(signature, **self.sig_env)
         seq = self.log.ev('violation', klass=klass, signature=signature)
         for k in self.known:
             if kf_match(k, klass, signature):
